@@ -515,6 +515,33 @@ def t3(ctx, res):
                         if src_keys is not None:
                             keys = src_keys - {e.value for e in n.iter.right.elts if isinstance(e, ast.Constant)}
                     loop_keys |= keys or set()
+    # nothing else writes into the mapping that holds the raw branches: a branch list emptied, replaced or popped
+    # before the loop never reaches parse_element
+    cnames = {name_of(b["MV_c"]) for n in walk_own(comp.body) if isinstance(n, ast.For)
+              for _, b in find("MV_c[MV_k] = [parse_element(MV_x, MV_st) for MV_x in MV_c.get(MV_k, MV__)]", n.body)}
+    for b_ in builders(vcomp):
+        m_ = match(_parse("MV_c.get(MV_k, MV__)"), b_.iter)
+        if m_ is not None and match(_parse(f"parse_element({norm(b_.target)}, MV_st)"), b_.elt) is not None and isinstance(m_["MV_c"], ast.Name):
+            cnames.add(m_["MV_c"].id)
+    for cn in sorted(cnames):
+        for st in walk_own(comp.body):
+            bad_ = None
+            if isinstance(st, ast.Assign):
+                for t in st.targets:
+                    if isinstance(t, ast.Subscript) and norm(t.value) == cn:
+                        v_ = st.value
+                        parsed = any(isinstance(x, ast.Call) and dotted(x.func) == "parse_element" for x in ast.walk(v_))
+                        if not parsed and not (isinstance(v_, ast.Name) and any(b_.name == v_.id for b_ in builders(vcomp))):
+                            bad_ = norm(st)[:90]
+            elif isinstance(st, ast.Delete) and any(isinstance(t, ast.Subscript) and norm(t.value) == cn for t in st.targets):
+                bad_ = norm(st)[:90]
+            elif isinstance(st, ast.Expr) and isinstance(st.value, ast.Call) and isinstance(st.value.func, ast.Attribute) \
+                    and norm(st.value.func.value) == cn and st.value.func.attr in ("pop", "clear", "popitem", "update", "setdefault"):
+                bad_ = norm(st)[:90]
+            if bad_:
+                res.violation(comp, bad_, reason="the raw branches of a composition keyword are replaced or removed without being sent "
+                                                 "through parse_element: unsupported keywords and cycles beneath them are never seen, "
+                                                 "and the branch is not modelled")
     for k in ck:
         if k == "not":
             ok = True if has("parse_element(MV_s['not'], MV_st)", vcomp) or has("parse_element(MV_s['not'], MV_st)", comp) else None
@@ -643,8 +670,8 @@ def t4(ctx, res):
         for t_, pol_ in b_.guards:
             for t2, p2 in flatten_guard(t_, pol_):
                 c = cmp_atom(t2, p2)
-                if c and c[0] == tv_ and c[1] == "not in" and isinstance(c[4], (ast.Tuple, ast.List, ast.Set)):
-                    excl += [norm(e) for e in c[4].elts]
+                if c and c[0] == tv_ and c[1] == "not in" and isinstance(deref_const(ctx, gv, c[4]), (ast.Tuple, ast.List, ast.Set)):
+                    excl += [norm(e) for e in deref_const(ctx, gv, c[4]).elts]
                 elif c and c[0] == tv_ and c[1] in ("!=", "is not"):
                     excl.append(c[2])
                 elif c and c[0] == tv_:
@@ -1250,6 +1277,25 @@ def t12(ctx, res):
                 verdict = False
         elif it_ok and not paths:
             verdict = False
+    if not loops:
+        # the same scan written as next((e for e in seen if o == e), None), tested against None and returned
+        from .norm import text_resolver
+        R = text_resolver(vb)
+        for ret in [x for x in walk_own(vb) if isinstance(x, ast.Return) and isinstance(x.value, ast.Call) and dotted(x.value.func) == "next"]:
+            nx = ret.value
+            if not (len(nx.args) == 2 and isinstance(nx.args[0], ast.GeneratorExp) and len(nx.args[0].generators) == 1
+                    and isinstance(nx.args[1], ast.Constant) and nx.args[1].value is None):
+                continue
+            g_ = nx.args[0].generators[0]
+            e = norm(g_.target)
+            guarded = any(cmp_atom(t, pol) and cmp_atom(t, pol)[0] == norm(nx) and cmp_atom(t, pol)[1] == "is not" and cmp_atom(t, pol)[2] == "None"
+                          for t, pol in flat_guards(Parents(vb), ret))
+            if R(g_.iter) != f"self.seen[{o}.__name__]" or norm(nx.args[0].elt) != e or not guarded:
+                continue
+            detail["scan"] = norm(nx)[:120]
+            ok_if = len(g_.ifs) == 1 and isinstance(g_.ifs[0], ast.Compare) and len(g_.ifs[0].ops) == 1 and isinstance(g_.ifs[0].ops[0], ast.Eq) \
+                and {norm(g_.ifs[0].left), norm(g_.ifs[0].comparators[0])} == {o, e}
+            verdict = True if ok_if else False
     res.judge(verdict, dd, "for existing in self.seen[name]: if object_type == existing: return existing", detail=detail,
               reason="every earlier class of the same title is compared by (structural) equality alone - an extra "
                      "pre-filter or a narrower scan creates duplicate classes for one object schema")
@@ -1337,7 +1383,28 @@ def t14(ctx, res):
                     for k in call.keywords:
                         if k.arg == "state":
                             passed = k.value
-                res.check(passed is not None and norm(passed) == "state", g, call if isinstance(call, ast.AST) else str(call),
+                def denotes_state(e, scope, depth=0):
+                    """the caller's own parse state: the `state` parameter, or a local bound only from it
+                    (`x = state`, `x = state or _ParseState()`)"""
+                    if e is None or depth > 4:
+                        return False
+                    if norm(e) == "state":
+                        return True
+                    if isinstance(e, ast.BoolOp) and isinstance(e.op, ast.Or) and len(e.values) == 2 \
+                            and norm(e.values[1]) == "_ParseState()":
+                        return denotes_state(e.values[0], scope, depth + 1)
+                    if isinstance(e, ast.Name):
+                        sc = scope
+                        while sc is not None:
+                            if e.id in sc.locals():
+                                binds = inf.bindings(sc).get(e.id, [])
+                                return bool(binds) and all(
+                                    (b[0] == "assign" and denotes_state(b[1], sc, depth + 1))
+                                    or (b[0] == "param" and b[1].annotation is not None and norm(b[1].annotation) == "_ParseState")
+                                    for b in binds)
+                            sc = sc.parent
+                    return False
+                res.check(passed is not None and denotes_state(passed, g), g, call if isinstance(call, ast.AST) else str(call),
                           reason="the caller's parse state is passed on: a call that omits it de-duplicates and names its object "
                                  "classes against a private, empty state (duplicate class names in one document)")
     res.floor("recursive_parser_calls", n, 20)
